@@ -78,7 +78,8 @@ def run(db: ProgramDB, chk) -> None:
         chk.ob("C19.R4-default-pickling", f"{q_} is not memoised (every restore builds a fresh graph from the archive's current content)", not memo, db.mod(MOD).loc(f_), found=memo or "no memoising decorator",
                accepted="no lru_cache / cache", why="a cached restore hands out the SAME mutable graph again (re-weighted by an earlier what-if) and ignores an archive that was saved anew under the same name")
     from .c09 import check_reset_before_accumulate
-    check_reset_before_accumulate(db, chk, "C19.R5-recomputation-on-a-restored-graph")    # restore -> critical_path() again must rebuild, not extend, the restored edge set
+    check_reset_before_accumulate(db, chk, "C19.R5-recomputation-on-a-restored-graph")
+    _decode_always(db, chk)    # restore -> critical_path() again must rebuild, not extend, the restored edge set
     m = db.mod(MOD)
     data_cls = m.cls("_CPGraphData")
     # private helpers are inlined and loops over literal tuples unrolled: the rules read the code as if it were written out
@@ -365,3 +366,41 @@ def run(db: ProgramDB, chk) -> None:
            m.loc(save), found=zipped, accepted=sorted(filter(None, roles_s.values())),
            why="an artefact that is not archived is missing (or stale from an earlier save) at restore time")
     chk.floor("C19.R2-artefacts", 14)
+
+
+def _decode_always(db, chk, rule="C19.R5-recomputation-on-a-restored-graph"):
+    """a restored graph carries the trace frame read back from the CSV (decoded string columns included, with empty strings read back as NaN): the breakdown must
+    not trust them - it decodes the names from the symbol table on EVERY call, on every path that builds the table"""
+    from ..core.interp import Interp
+    from ..core.values import Frame, Obj
+    from ..core import terms as T
+    m = db.mod(MOD)
+    fn = m.func("CPGraph.get_critical_path_breakdown")
+    where = m.loc(fn)
+    TD = ("param", "TD")
+
+    def hook(I, name, pos, kw, node):
+        if name.split(".")[-1] == "decode_symbol_id_to_symbol_name":
+            I.log("decode", node)
+            fr = pos[0] if pos else kw.get("df")
+            if isinstance(fr, Frame):
+                fr.setcol("s_name", T.P("DECODED_NAME"))
+                fr.setcol("s_cat", T.P("DECODED_CAT"))
+            return None
+        return NotImplemented
+    I = Interp(db, call_hook=hook)
+    mk = lambda I: {"self": Obj("self", cls=(m, "CPGraph"), attrs={"trace_df": Frame(TD), "symbol_table": Obj("symtab"), "critical_path_nodes": T.P("CRITICAL_NODES"),
+                                                                "critical_path_edges_set": T.P("CRITICAL_EDGES"), "edge_to_event_map": T.P("EDGE_MAP")})}
+    try:
+        runs = [r for r in I.explore(f"{MOD}:CPGraph.get_critical_path_breakdown", mk) if r.raised is None and isinstance(r.ret, Frame)]
+    except Exception as e:          # noqa
+        chk.ob(rule, "get_critical_path_breakdown is analysable", None, where, found=str(e)[:120])
+        return
+    if not runs or len(runs) > 8:
+        chk.ob(rule, "get_critical_path_breakdown: paths that build the table", None, where, found=len(runs))
+        return
+    for r in runs:
+        n = sum(1 for e in r.events if e["kind"] == "decode")
+        cond = T.show(r.cond())[:80] if r.path else "always"
+        chk.ob(rule, f"the breakdown decodes the names from the symbol table on this call [{cond}]", n >= 1, where, found=f"{n} decode call(s)", accepted="decode_symbol_id_to_symbol_name(trace_df, ...) on every path",
+               why="after save / restore the frame's s_name column comes from the CSV (an empty short name is read back as NaN): skipping the decode when the column exists makes the restored graph's breakdown fail or differ")
